@@ -124,6 +124,13 @@ def do_load(how, out, gpath, genome, only_chrom=None, rec=None, tamper=None):
             if os.path.isfile(p) and not os.path.exists(os.path.join(rdir, fn)):
                 if fn.endswith(".h5") and fn[len(genome) + 1:-3] in tamper.get("drop_results", []):
                     continue
+                if fn.endswith(".h5") and tamper.get("multi_id") and fn[len(genome) + 1:-3] == tamper["multi_id"][0]:
+                    # a private copy of this result file that stores a second chromosome identifier as well
+                    shutil.copyfile(p, os.path.join(rdir, fn))
+                    with h5py.File(os.path.join(rdir, fn), "r+") as f:
+                        del f["CHROMOSOME_ID"]
+                        f.create_dataset("CHROMOSOME_ID", data=[x.encode("utf-8") for x in tamper["multi_id"]], dtype=h5py.string_dtype())
+                    continue
                 os.link(p, os.path.join(rdir, fn))
         if tamper:
             gdir = os.path.join(out, "..", "genedata_" + tag)
@@ -514,4 +521,35 @@ def op_lookup_unit(req):
     return {"ok": True, "results": out}
 
 
-OPS = {"reader.lookup_unit": op_lookup_unit, "reader.session": op_session, "reader.synthetic": op_synthetic}
+def op_pair_unit(req):
+    """The real DensityData._pair_by_chromosome on real HDF5 files that store the given chromosome identifiers and on objects
+    carrying the given chromosome_unique_id: which GeneData (by position) does every file get, or does it raise?"""
+    from transposon.density_data import DensityData
+    out = []
+    d = tempfile.mkdtemp(prefix="vh_pair_")
+    try:
+        for ci, c in enumerate(req["cases"]):
+            paths = []
+            for k, stored in enumerate(c["h5s"]):
+                p = os.path.join(d, "c%d_f%d.h5" % (ci, k))
+                with h5py.File(p, "w") as f:
+                    dt = h5py.string_dtype()
+                    f.create_dataset("CHROMOSOME_ID", shape=(len(stored),), dtype=dt)
+                    if stored:
+                        f["CHROMOSOME_ID"][:] = list(stored)
+                paths.append(p)
+            class GD:
+                def __init__(self, i, cid):
+                    self.pos, self.chromosome_unique_id = i, cid
+            gds = [GD(i, cid) for i, cid in enumerate(c["gds"])]
+            try:
+                ps = DensityData._pair_by_chromosome(list(paths), list(gds), LOG)
+                out.append({"ok": True, "pairs": [[paths.index(a), b.pos] for a, b in ps]})
+            except (ValueError, KeyError, IndexError, TypeError) as e:
+                out.append({"ok": False, "exc": type(e).__name__})
+    finally:
+        shutil.rmtree(d, ignore_errors=True)
+    return {"ok": True, "results": out}
+
+
+OPS = {"reader.pair_unit": op_pair_unit, "reader.lookup_unit": op_lookup_unit, "reader.session": op_session, "reader.synthetic": op_synthetic}
